@@ -19,6 +19,30 @@ CLAIMED = {
         technique='typestate/dominance on per-function CFGs; producer/consumer key-set inclusion over the AST; format-constant agreement; SQL-token check of emitted templates',
         text='Structural necessary conditions only, not the multiset equality itself: (R1) on every path to RuleStructure.AsSql in SingleRuleSql/FunctionSql the structure went through ExtractRuleStructure -> RunInjections -> ElliminateInternalVariables(full) -> UnificationsToConstraints, and injected structures are eliminated before InjectStructure; (R2) every expression/literal/proposition kind the parser can build has a consumer branch; (R3) every site naming a positional column uses col<N> and every writer of the functional value uses logica_value; (R4) rules of one predicate are joined by UNION ALL without DISTINCT and GROUP BY is emitted only for distinct_vars. Breaking any of them changes rows or makes compilation fail for whole classes of programs; the checks see every branch of every function on every run, which no finite set of goldens does.',
         ref='3/C01'),
+    'C05': dict(
+        technique='post-dominance / guarded-by on CFGs, abstract interpretation of CheckForError, parser-key vs visitor-key inclusion, call-graph reachability of constraint generators',
+        text='Structural necessary conditions only, not soundness of inference: (R1) in RunTypechecker and SingleRuleSql inference is always followed by the error search in raise mode over the same rules before AsSql, and CheckForError(raise) raises TypeErrorCaughtException whenever an error was found (all paths, abstract interpretation); (R2) every key under which the parser stores a sub-expression is visited by ExpressionsIterator and every Act* constraint generator is reachable from the inference passes; (R3) whole-program and per-structure checking are gated by the same ShouldTypecheck(); (R4) pod literals get Num/Str/Bool.',
+        ref='3/C05'),
+    'C09': dict(
+        technique='interface conformance over the class hierarchy (signature vs every call site), format-string parsing of every template table entry with arity from abstract interpretation of BuiltInFunctionArityRange, CFG dominance for placeholder handling and WITH ordering',
+        text='Four of the five clauses, structurally: (R1) every method the pipeline invokes on a dialect object, with the argument shape of each call site, is accepted by each of the eight dialect classes; (R2) every function/infix/unnest/array/analytic template formats without ValueError/KeyError/IndexError for every admissible argument count and has an arity source; (R4) UNUSED entries are handled before the generic loop, the DUMMY() UDF bootstrap is overwritten, the nil marker is a SQL comment and filtered; (R5) a WITH dependency is appended after its own dependencies were compiled, once, and emitted in recorded order. Alias scoping (alias.column refers to an enclosing FROM) is run-time data of RuleStructure and is NOT decided; bracket/quote balance of emitted text is added by C09-R3 when the template-skeleton engine is built.',
+        ref='3/C09'),
+    'C13': dict(
+        technique='inter-procedural set-order taint analysis (kinds, effect summaries, return/parameter/attribute flow to a fixpoint) with premise-checked exemptions; global-state inventory with data/control dependence and all-paths re-establishment on the CFG; nondeterminism-source confinement; deep-copy provenance',
+        text='This is the property static analysis suits best: hash-seed and process-history dependence are invisible to a test run and visible in the code. (R1) no iteration order of a set reaches a list, string, allocator numbering, emitted statement or the insertion order of a dict that is iterated later, anywhere in parse/compiler/type-inference modules, except 8 named constructs whose normalising consumer is itself checked on every run; (R2) every run-time write to module/class level state is never read, a constant cache, or assigned on all paths of its writer; shared containers are never mutated in place; (R3) time/identity/random sources reach only the stop-signal file name, timers and identity bookkeeping; (R4) caller-owned rules and shared template tables are deep-copied before any in-place rewrite. Decides absence of these two mechanisms of non-determinism, not byte equality itself.',
+        ref='3/C13'),
+    'C14': dict(
+        technique='dominance / must-pass-through on CFGs of the edge-recording and queue-owning functions; ownership scan of the action queue; direction agreement between edge writer and reader',
+        text='Three structural clauses, not schedule correctness for every graph: (R1) every read of a grounded or external table records the edge (table, reader-on-top-of-stack) before any return, only the iteration closure suppresses edges, and the executor reads the tuple in the same direction; (R2) push/pop of the workflow stack bracket the recursive compilation, SortActions schedules an action only when its requirements are complete; (R3) an iterated action is re-queued only after its counter was incremented and found below the declared repetitions and without stop signal, only three methods touch the queue, only iterated actions are re-queued, the head is dequeued before it runs.',
+        ref='3/C14'),
+    'C18': dict(
+        technique='abstract interpretation of OkInjection / LimitClause under annotation scenarios (present, absent, zero); control dependence of InjectStructure on OkInjection; return-expression composition in PredicateSql; producer/consumer table agreement for denotations',
+        text='Structural clauses, not the row order SQLite returns: (R1) OkInjection is false on every path when @OrderBy or @Limit is present and every InjectStructure is control dependent on it; (R2) every non-raising return of PredicateSql carries body + OrderByClause(name) + LimitClause(name) in that order and all nested uses compile through PredicateSql; (R3) an arbitrary int limit including 0 still blocks injection and emits LIMIT, absence emits nothing; (R4) denotation keys written by ParseRule are the keys read by AnnotationsFromDenotations and map to registered annotations read by OrderBy()/LimitOf().',
+        ref='3/C18'),
+    'C19': dict(
+        technique='catalogue of guarded raise sites located by exception type + polarity-aware guard dependence; must-call (post-dominance) of validators; call-graph reachability from the entry points; handler discipline on the call paths and at the CLI',
+        text='Error discipline, not detection of every corrupted program: (R1) for each class of invalid program named by the property a raise of the right diagnostic type exists under a guard derived from the relevant condition; (R2) the validators are must-calls of the entry points and every site is reachable from ParseFile / LogicaProgram; (R3) catalogue functions raise only the four diagnostic types, exception_maker builds RuleCompileException, no handler between entry and site swallows a diagnostic, and logica.py / run_in_terminal catch all of them, show the message and exit non-zero.',
+        ref='3/C19'),
 }
 
 NOT_APPLICABLE = {
